@@ -2401,7 +2401,8 @@ size_t ZSTD_decompressStream(ZSTD_DStream* zds, ZSTD_outBuffer* output, ZSTD_inB
         if (zds->noForwardProgress >= ZSTD_NO_FORWARD_PROGRESS_MAX) {
             RETURN_ERROR_IF(op==oend, noForwardProgress_destFull, "");
             RETURN_ERROR_IF(ip==iend, noForwardProgress_inputEmpty, "");
-            assert(0);
+            /* input and room are both available : all that is left to do is to release the hostage byte, below */
+            assert(zds->hostageByte);
         }
     } else {
         zds->noForwardProgress = 0;
